@@ -1,4 +1,5 @@
 import KitModel.SpiffeTA
+import KitModel.SpiffeTAShape
 import KitProofs.Lemmas.SpiffeTA
 /-!
 Property C19, trust-bundle source (`crypto/spiffe/trustanchors/file.go`): the readiness discipline of
@@ -8,6 +9,30 @@ the deadlock of `GetX509SVID` cannot occur here; these theorems prove it for the
 `KitModel/SpiffeTA.lean`.
 -/
 namespace Kit.Spiffe.TA
+
+open Kit.Generated.C19 in
+/-- **T1 for the trust-bundle source**: the statement order of `Run`, `updateAnchors`,
+`GetX509BundleForTrustDomain`, `CurrentTrustAnchors` and `Watch` extracted from
+`trustanchors/file.go` on this run equals the order read back out of the LTS by executing it:
+`Run` = CAS, (deferred `close(closeCh)` registered FIRST, so every later return closes it), wait for
+the file, `updateAnchors` (Lock, deferred Unlock registered directly after it, read, decode, assign,
+notify), `fswatcher.New`, `close(readyCh)` — after the load, never under the lock; on garbage: Lock,
+Unlock, `close(closeCh)`.  Readers: ONE select over `closeCh | readyCh` (plus ctx for
+`CurrentTrustAnchors`) that needs no lock, THEN `RLock`, read, deferred `RUnlock`.  `Watch`:
+Lock … Unlock around the registration.  A reload is Lock, assign, Unlock. -/
+theorem ta_source_shape_as_modelled :
+    Shape.srcRunOk = Shape.modelRunOk ∧
+    Shape.srcRunGarbage = Shape.modelRunGarbage ∧
+    Shape.modelStop = [.deferCloseClosed] ∧
+    Shape.updOk = Shape.modelReload ∧
+    Shape.follows .cas .deferCloseClosed taRun = true ∧
+    Shape.follows .lock .deferUnlock taUpdate = true ∧
+    taRun.getLast? = some .runWatcherAndReloadLoop ∧
+    Shape.resolveDefer taGetBundle = Shape.modelGet false ∧
+    Shape.resolveDefer taCurrent = Shape.modelGet true ∧
+    Shape.follows .rlock .deferRUnlock taGetBundle = true ∧ Shape.follows .rlock .deferRUnlock taCurrent = true ∧
+    taWatch.filter Shape.isSync = Shape.modelWatch ∧ taWatch.getLast? = some .watchLoop := by
+  decide
 
 /-- **The bundle source never deadlocks, whatever the order of first calls.**  From every reachable
 state — any number of `GetX509BundleForTrustDomain`, `CurrentTrustAnchors(ctx)` and `Watch` callers,
